@@ -392,48 +392,145 @@ theorem Members_flatten_nil (hnil : Dec [] = none) {ms xs : List Bytes} (h : Mem
     simp only [List.flatten_cons, List.append_eq_nil_iff] at hf
     rw [hf.1, hnil] at hm; cases hm
 
-/-- a cut-off last member: `t` is empty, or a proper non-empty prefix of a valid member with content `xT` -/
-def CutOK (Dec : Bytes → Option Bytes) (t xT : Bytes) : Prop :=
-  (t = [] ∧ xT = []) ∨ (t ≠ [] ∧ ∃ t', t' ≠ [] ∧ Dec (t ++ t') = some xT)
+/-! ### `Link` and `Deliv` -/
+
+theorem Link.refl (rem : Bytes) (j : Nat) : Link rem j [] rem j :=
+  ⟨[], [], rfl, rfl, fun h => absurd rfl h, by simp⟩
+
+theorem Link.of_eq {rem out rem' : Bytes} (j : Nat) (h : rem = out ++ rem') : Link rem j out rem' j :=
+  ⟨out, [], by simp, h, fun h => absurd rfl h, by simp⟩
+
+theorem Link.junk {out : Bytes} {j j' : Nat} (h : out.length + j' ≤ j) : Link [] j out [] j' :=
+  ⟨[], out, by simp, rfl, fun _ => rfl, h⟩
+
+theorem Link.trans {rem rem1 rem2 o1 o2 : Bytes} {j j1 j2 : Nat} (h1 : Link rem j o1 rem1 j1)
+    (h2 : Link rem1 j1 o2 rem2 j2) : Link rem j (o1 ++ o2) rem2 j2 := by
+  obtain ⟨a1, b1, ho1, hr1, hb1, hj1⟩ := h1
+  obtain ⟨a2, b2, ho2, hr2, hb2, hj2⟩ := h2
+  by_cases hb : b1 = []
+  · subst hb
+    refine ⟨a1 ++ a2, b2, by simp [ho1, ho2], by rw [hr1, hr2]; simp, hb2, ?_⟩
+    simp only [List.length_nil, Nat.zero_add] at hj1
+    omega
+  · have h0 := hb1 hb
+    rw [h0] at hr2
+    have ha2 : a2 = [] := (List.append_eq_nil_iff.1 hr2.symm).1
+    have hrem2 : rem2 = [] := (List.append_eq_nil_iff.1 hr2.symm).2
+    subst ha2
+    refine ⟨a1, b1 ++ b2, by simp [ho1, ho2], by rw [hr1, h0, hrem2], fun _ => hrem2, ?_⟩
+    rw [List.length_append]; omega
+
+theorem Link.eq_of_zero {rem out rem' : Bytes} {j' : Nat} (h : Link rem 0 out rem' j') : rem = out ++ rem' ∧ j' = 0 := by
+  obtain ⟨a, b, ho, hr, _, hj⟩ := h
+  have hb : b = [] := List.eq_nil_of_length_eq_zero (by omega)
+  subst hb
+  exact ⟨by rw [ho, hr]; simp, by omega⟩
+
+theorem Link.nil_out {rem rem' : Bytes} {j j' : Nat} (h : Link rem j [] rem' j') : rem = rem' := by
+  obtain ⟨a, b, ho, hr, _, _⟩ := h
+  have := List.append_eq_nil_iff.1 ho.symm
+  rw [hr, this.1]; rfl
+
+theorem Link.length_le {X D rem : Bytes} {J j : Nat} (h : Link X J D rem j) : D.length ≤ X.length + J := by
+  obtain ⟨a, b, hD, hX, _, hj⟩ := h
+  rw [hD, hX]; simp only [List.length_append]; omega
+
+theorem Link.deliv {X D rem acc : Bytes} {J j : Nat} (h : Link X J D rem j) (hp : IsPre acc D) : Deliv X J acc := by
+  obtain ⟨a, b, hD, hX, hb, hj⟩ := h
+  obtain ⟨t, ht⟩ := hp
+  have hacc : acc = (a ++ b).take acc.length := by rw [← hD, ht]; simp
+  refine ⟨a.take acc.length, b.take (acc.length - a.length), ?_, ?_, ?_, ?_⟩
+  · conv => lhs; rw [hacc]
+    rw [List.take_append]
+  · exact (IsPre.take a _).trans ⟨rem, hX⟩
+  · have : (b.take (acc.length - a.length)).length ≤ b.length := by rw [List.length_take]; omega
+    omega
+  · intro hne
+    have hbne : b ≠ [] := by intro h0; rw [h0] at hne; simp at hne
+    have hlen : a.length < acc.length := by
+      by_cases hl : a.length < acc.length
+      · exact hl
+      · exfalso; apply hne
+        have : acc.length - a.length = 0 := by omega
+        rw [this]; rfl
+    rw [hX, hb hbne, List.append_nil, List.take_of_length_le (by omega)]
+
+theorem Deliv.zero {X acc : Bytes} (h : Deliv X 0 acc) : IsPre acc X := by
+  obtain ⟨a, b, hacc, hp, hb, _⟩ := h
+  have : b = [] := List.eq_nil_of_length_eq_zero (by omega)
+  rw [hacc, this, List.append_nil]; exact hp
+
+theorem Deliv.length_le {X acc : Bytes} {J : Nat} (h : Deliv X J acc) : acc.length ≤ X.length + J := by
+  obtain ⟨a, b, hacc, hp, hb, _⟩ := h
+  have := hp.length_le
+  rw [hacc, List.length_append]; omega
+
+/-! ### the ghost invariant for a per-member decoder -/
+
+/-- no statement about input that has gone wrong -/
+def Doom.none (hD : DecContract C Dec) : Doom hD where
+  B := fun _ _ _ => False
+  budget := fun _ => 0
+  step_none := by intro s rest j h; exact h.elim
+  step_full := by intro s j h; exact h.elim
+
+/-- at a member boundary dead bytes lead into `B` -/
+def Enter {hD : DecContract C Dec} (E : Doom hD) : Prop :=
+  ∀ (s : σ) (c : Bytes), hD.R s [] [] → Dead Dec c → E.B s c (E.budget c.length)
 
 /--
-Ghost description of "decoder state `cs`, `rest` still in the wrapped stream, content `rem` still to come".
-`T` tells whether the stream ends inside a member.
+Ghost description of "decoder state `cs`, `rest` still in the wrapped stream (an input of kind `K`), content `rem` and
+then at most `j` bytes of junk still to come".
 -/
-def G (hD : DecContract C Dec) (T : Bool) (cs : σ) (rest rem : Bytes) : Prop :=
-  (∃ u v w x ms xs t xT, hD.R cs u v ∧ Dec (u ++ w) = some x ∧ IsPre v x ∧ Members Dec ms xs ∧ CutOK Dec t xT ∧
-      (T = true ↔ t ≠ []) ∧ rest = w ++ (ms.flatten ++ t) ∧ rem = x.drop v.length ++ (xs.flatten ++ xT)) ∨
-  (∃ u v w' w'' x, T = true ∧ hD.R cs u v ∧ Dec (u ++ (w' ++ w'')) = some x ∧ IsPre v x ∧ w'' ≠ [] ∧
-      (u ≠ [] ∨ w' ≠ []) ∧ rest = w' ∧ rem = x.drop v.length) ∨
-  (T = false ∧ hD.R cs [] [] ∧ rest = [] ∧ rem = [])
+def G (hD : DecContract C Dec) (E : Doom hD) (K : Kind) (cs : σ) (rest rem : Bytes) (j : Nat) : Prop :=
+  (∃ u v w x ms xs t xT, hD.R cs u v ∧ Dec (u ++ w) = some x ∧ IsPre v x ∧ Members Dec ms xs ∧ Tail Dec K t xT ∧
+      rest = w ++ (ms.flatten ++ t) ∧ rem = x.drop v.length ++ (xs.flatten ++ xT) ∧
+      (K ≠ Kind.corrupt → j = 0) ∧ (K = Kind.corrupt → j = E.budget t.length)) ∨
+  (∃ u v w' w'' x, K = Kind.truncated ∧ hD.R cs u v ∧ Dec (u ++ (w' ++ w'')) = some x ∧ IsPre v x ∧ w'' ≠ [] ∧
+      (u ≠ [] ∨ w' ≠ []) ∧ rest = w' ∧ rem = x.drop v.length ∧ j = 0) ∨
+  (K = Kind.valid ∧ hD.R cs [] [] ∧ rest = [] ∧ rem = [] ∧ j = 0) ∨
+  (K = Kind.corrupt ∧ rem = [] ∧ E.B cs rest j)
 
 /-- at a member boundary -/
-theorem G_boundary (hD : DecContract C Dec) {T : Bool} {cs : σ} (hR : hD.R cs [] []) {ms xs : List Bytes} {t xT : Bytes}
-    (hms : Members Dec ms xs) (hcut : CutOK Dec t xT) (hT : T = true ↔ t ≠ []) :
-    G hD T cs (ms.flatten ++ t) (xs.flatten ++ xT) := by
+theorem G_boundary (hD : DecContract C Dec) (E : Doom hD) {K : Kind} (hen : K = Kind.corrupt → Enter E) {cs : σ}
+    (hR : hD.R cs [] []) {ms xs : List Bytes} {t xT : Bytes} {j : Nat}
+    (hms : Members Dec ms xs) (htail : Tail Dec K t xT) (hj0 : K ≠ Kind.corrupt → j = 0)
+    (hjc : K = Kind.corrupt → j = E.budget t.length) :
+    G hD E K cs (ms.flatten ++ t) (xs.flatten ++ xT) j := by
   cases hms with
   | cons hm hrest =>
     rename_i m x ms' xs'
     left
-    exact ⟨[], [], m, x, ms', xs', t, xT, hR, by simpa using hm, IsPre.nil _, hrest, hcut, hT, by simp, by simp⟩
+    exact ⟨[], [], m, x, ms', xs', t, xT, hR, by simpa using hm, IsPre.nil _, hrest, htail, by simp, by simp, hj0, hjc⟩
   | nil =>
-    rcases hcut with ⟨ht, hx⟩ | ⟨ht, t', ht', hd⟩
-    · right; right
+    cases K with
+    | valid =>
+      obtain ⟨ht, hx⟩ := htail
       subst ht hx
-      refine ⟨?_, hR, by simp, by simp⟩
-      cases T with
-      | false => rfl
-      | true => exact absurd rfl (hT.1 rfl)
-    · right; left
-      exact ⟨[], [], t, t', xT, hT.2 ht, hR, by simpa using hd, IsPre.nil _, ht', Or.inr ht, by simp, by simp⟩
+      right; right; left
+      exact ⟨rfl, hR, by simp, by simp, hj0 (by decide)⟩
+    | truncated =>
+      obtain ⟨ht, t', ht', hd⟩ := htail
+      right; left
+      exact ⟨[], [], t, t', xT, rfl, hR, by simpa using hd, IsPre.nil _, ht', Or.inr ht, by simp, by simp, hj0 (by decide)⟩
+    | corrupt =>
+      obtain ⟨hdead, hx⟩ := htail
+      subst hx
+      right; right; right
+      refine ⟨rfl, by simp, ?_⟩
+      rw [hjc rfl]
+      simpa using hen rfl cs t hR hdead
 
 /-- one `process_data` call while the wrapped stream still has data (`FLUSH_NONE`) -/
-theorem G_step_none (hD : DecContract C Dec) {T : Bool} {cs : σ} {rest rem : Bytes} (hG : G hD T cs rest rem)
+theorem G_step_none (hD : DecContract C Dec) (E : Doom hD) {K : Kind} (hen : K = Kind.corrupt → Enter E)
+    {cs : σ} {rest rem : Bytes} {j : Nat} (hG : G hD E K cs rest rem j)
     (n room : Nat) (hn : 0 < n) (hnr : n ≤ rest.length) (hroom : 0 < room) :
     ∀ r, r = C.step cs (rest.take n) room Flush.none →
-    r.res ≠ Res.error ∧ r.out.length ≤ room ∧ r.consumed ≤ n ∧
-    (∃ rem', G hD T r.st (rest.drop r.consumed) rem' ∧ rem = r.out ++ rem') ∧
-    (r.res = Res.bufferFull → r.out ≠ []) ∧ (0 < r.consumed ∨ hD.pend r.st < hD.pend cs) := by
+    (r.res = Res.error ∧ K = Kind.corrupt) ∨
+    (r.res ≠ Res.error ∧ r.out.length ≤ room ∧ r.consumed ≤ n ∧
+      (∃ rem' j', G hD E K r.st (rest.drop r.consumed) rem' j' ∧ Link rem j r.out rem' j') ∧
+      (r.res = Res.bufferFull → r.out ≠ []) ∧
+      (0 < r.consumed ∨ hD.pend r.st < hD.pend cs ∨ r.res = Res.bufferFull)) := by
   intro r hr
   have hinp : rest.take n ≠ [] := by
     intro h
@@ -441,29 +538,29 @@ theorem G_step_none (hD : DecContract C Dec) {T : Bool} {cs : σ} {rest rem : By
     simp only [List.length_take, List.length_nil] at this
     omega
   have hlen : (rest.take n).length = n := by simp [List.length_take]; omega
-  have hfl : Flush.none = Flush.full → ∀ k : Nat, k ≤ (rest.take n).length := by intro h; cases h
-  rcases hG with ⟨u, v, w, x, ms, xs, t, xT, hR, hdec, hpre, hms, hcut, hT, hrest, hrem⟩ |
-      ⟨u, v, w', w'', x, hT, hR, hdec, hpre, hw'', hne, hrest, hrem⟩ | ⟨_, _, hrest, _⟩
+  rcases hG with ⟨u, v, w, x, ms, xs, t, xT, hR, hdec, hpre, hms, htail, hrest, hrem, hj0, hjc⟩ |
+      ⟨u, v, w', w'', x, hK, hR, hdec, hpre, hw'', hne, hrest, hrem, hj⟩ | ⟨_, _, hrest, _⟩ | ⟨hK, hrem, hB⟩
   · -- inside a complete member
     have hip : IsPre (rest.take n) (w ++ (ms.flatten ++ t)) := by rw [← hrest]; exact IsPre.take _ _
     obtain ⟨h1, h2, h3, h4, h5, h6, h7, h8⟩ := hD.valid w x (ms.flatten ++ t) (rest.take n) room Flush.none hR hdec hip (fun h => by cases h)
     have hprog := hD.progress w x (ms.flatten ++ t) (rest.take n) room Flush.none hR hdec hip (fun h => by cases h) hroom hinp
     rw [← hr] at h1 h2 h3 h4 h5 h6 h7 h8 hprog
-    refine ⟨h1, h4, by omega, ?_, h8, hprog⟩
+    right
+    refine ⟨h1, h4, by omega, ?_, h8, by rcases hprog with h | h; exact Or.inl h; exact Or.inr (Or.inl h)⟩
     by_cases hend : r.res = Res.streamEnd
     · obtain ⟨hc, hx, hR'⟩ := h6 hend
-      refine ⟨xs.flatten ++ xT, ?_, ?_⟩
+      refine ⟨xs.flatten ++ xT, j, ?_, Link.of_eq j ?_⟩
       · have : rest.drop r.consumed = ms.flatten ++ t := by
           rw [hrest, hc]; simp
         rw [this]
-        exact G_boundary hD hR' hms hcut hT
+        exact G_boundary hD E hen hR' hms htail hj0 hjc
       · rw [hrem, ← hx]; simp
     · have hR' := h7 hend
       have htake : (rest.take n).take r.consumed = w.take r.consumed := by
         rw [List.take_take, Nat.min_eq_left (by omega), hrest, List.take_append_of_le_length h3]
-      refine ⟨x.drop (v ++ r.out).length ++ (xs.flatten ++ xT), ?_, ?_⟩
+      refine ⟨x.drop (v ++ r.out).length ++ (xs.flatten ++ xT), j, ?_, Link.of_eq j ?_⟩
       · left
-        refine ⟨u ++ w.take r.consumed, v ++ r.out, w.drop r.consumed, x, ms, xs, t, xT, ?_, ?_, h5, hms, hcut, hT, ?_, rfl⟩
+        refine ⟨u ++ w.take r.consumed, v ++ r.out, w.drop r.consumed, x, ms, xs, t, xT, ?_, ?_, h5, hms, htail, ?_, rfl, hj0, hjc⟩
         · rw [← htake]; exact hR'
         · rw [List.append_assoc, List.take_append_drop]; exact hdec
         · rw [hrest, List.drop_append_of_le_length h3]
@@ -489,9 +586,11 @@ theorem G_step_none (hD : DecContract C Dec) {T : Bool} {cs : σ} {rest rem : By
     have hcw : r.consumed ≤ w'.length := by rw [← hrest]; omega
     have htake : (rest.take n).take r.consumed = w'.take r.consumed := by
       rw [List.take_take, Nat.min_eq_left (by omega), hrest]
-    refine ⟨h1, h4, by omega, ⟨x.drop (v ++ r.out).length, ?_, ?_⟩, h8, hprog⟩
+    right
+    refine ⟨h1, h4, by omega, ⟨x.drop (v ++ r.out).length, j, ?_, Link.of_eq j ?_⟩, h8,
+      by rcases hprog with h | h; exact Or.inl h; exact Or.inr (Or.inl h)⟩
     · right; left
-      refine ⟨u ++ w'.take r.consumed, v ++ r.out, w'.drop r.consumed, w'', x, hT, ?_, ?_, h5, hw'', ?_, ?_, rfl⟩
+      refine ⟨u ++ w'.take r.consumed, v ++ r.out, w'.drop r.consumed, w'', x, hK, ?_, ?_, h5, hw'', ?_, ?_, rfl, hj⟩
       · rw [← htake]; exact hR'
       · rw [List.append_assoc, ← List.append_assoc (w'.take _), List.take_append_drop]; exact hdec
       · rcases hne with h | h
@@ -506,45 +605,51 @@ theorem G_step_none (hD : DecContract C Dec) {T : Bool} {cs : σ} {rest rem : By
       · rw [hrest]
     · rw [hrem, IsPre.drop_eq h5]
   · rw [hrest] at hnr; simp at hnr; omega
+  · -- the input has gone wrong
+    rcases E.step_none hB n room hn hnr hroom r hr with he | ⟨hol, hcn, ⟨j', hB', hjj⟩, hbf, hprog⟩
+    · exact Or.inl ⟨he, hK⟩
+    · by_cases herr : r.res = Res.error
+      · exact Or.inl ⟨herr, hK⟩
+      · right
+        refine ⟨herr, hol, hcn, ⟨[], j', Or.inr (Or.inr (Or.inr ⟨hK, rfl, hB'⟩)), ?_⟩, hbf, hprog⟩
+        rw [hrem]; exact Link.junk hjj
 
 /-- one `process_data` call at the end of the wrapped stream (`FLUSH_FULL`, no input) -/
-theorem G_step_full (hD : DecContract C Dec) {T : Bool} {cs : σ} {rem : Bytes} (hG : G hD T cs [] rem)
-    (room : Nat) (hroom : 0 < room) :
+theorem G_step_full (hD : DecContract C Dec) (E : Doom hD) {K : Kind} {cs : σ} {rem : Bytes} {j : Nat}
+    (hG : G hD E K cs [] rem j) (room : Nat) (hroom : 0 < room) :
     ∀ r, r = C.step cs [] room Flush.full →
-    (r.res = Res.error ∧ T = true) ∨
+    (r.res = Res.error ∧ K ≠ Kind.valid) ∨
     (r.res ≠ Res.error ∧ r.consumed = 0 ∧ r.out.length ≤ room ∧
-      (∃ rem', G hD T r.st [] rem' ∧ rem = r.out ++ rem') ∧
-      (T = false → r.out = [] → rem = []) ∧ (T = true → r.out ≠ [])) := by
+      (∃ rem' j', G hD E K r.st [] rem' j' ∧ Link rem j r.out rem' j') ∧
+      (K = Kind.valid → r.out = [] → rem = []) ∧ (K ≠ Kind.valid → r.out ≠ [])) := by
   intro r hr
-  rcases hG with ⟨u, v, w, x, ms, xs, t, xT, hR, hdec, hpre, hms, hcut, hT, hrest, hrem⟩ |
-      ⟨u, v, w', w'', x, hT, hR, hdec, hpre, hw'', hne, hrest, hrem⟩ | ⟨hT, hR, _, hrem⟩
+  rcases hG with ⟨u, v, w, x, ms, xs, t, xT, hR, hdec, hpre, hms, htail, hrest, hrem, hj0, hjc⟩ |
+      ⟨u, v, w', w'', x, hK, hR, hdec, hpre, hw'', hne, hrest, hrem, hj⟩ | ⟨hK, hR, _, hrem, hj⟩ | ⟨hK, hrem, hB⟩
   · -- the last member has been consumed completely
     have hw : w = [] := (List.append_eq_nil_iff.1 hrest.symm).1
     have hmt := (List.append_eq_nil_iff.1 hrest.symm).2
     have ht : t = [] := (List.append_eq_nil_iff.1 hmt).2
     obtain ⟨hms0, hxs0⟩ := Members_flatten_nil hD.dec_nil hms (List.append_eq_nil_iff.1 hmt).1
-    have hTf : T = false := by
-      cases T with
-      | false => rfl
-      | true => exact absurd ht (hT.1 rfl)
-    have hxT : xT = [] := by
-      rcases hcut with ⟨_, h⟩ | ⟨h, _⟩
-      · exact h
-      · exact absurd ht h
+    have hKv : K = Kind.valid ∧ xT = [] := by
+      cases K with
+      | valid => exact ⟨rfl, htail.2⟩
+      | truncated => exact absurd ht htail.1
+      | corrupt => exact absurd ht htail.1.1
+    obtain ⟨hKv, hxT⟩ := hKv
     subst hw ht hms0 hxs0 hxT
     simp only [List.append_nil, List.flatten_nil] at hdec hrem
     obtain ⟨h1, h2, h3, h4, h5, h6, h7, h8⟩ := hD.valid [] x [] [] room Flush.full hR (by simpa using hdec) (IsPre.nil _) (fun _ => by simp)
     have hdrain := hD.drain x room hR hdec hroom
     rw [← hr] at h1 h2 h3 h4 h5 h6 h7 h8 hdrain
     right
-    refine ⟨h1, by simpa using h2, h4, ?_, ?_, (by intro h; rw [hTf] at h; cases h)⟩
+    refine ⟨h1, by simpa using h2, h4, ?_, ?_, (by intro h; exact absurd hKv h)⟩
     · by_cases hend : r.res = Res.streamEnd
       · obtain ⟨_, hx, hR'⟩ := h6 hend
-        refine ⟨[], Or.inr (Or.inr ⟨hTf, hR', rfl, rfl⟩), ?_⟩
+        refine ⟨[], j, Or.inr (Or.inr (Or.inl ⟨hKv, hR', rfl, rfl, hj0 (by rw [hKv]; decide)⟩)), Link.of_eq j ?_⟩
         rw [hrem, ← hx]; simp
       · have hR' := h7 hend
-        refine ⟨x.drop (v ++ r.out).length, Or.inl ⟨u, v ++ r.out, [], x, [], [], [], [], ?_, by simpa using hdec, h5,
-          Members.nil, Or.inl ⟨rfl, rfl⟩, hT, by simp, by simp⟩, ?_⟩
+        refine ⟨x.drop (v ++ r.out).length, j, Or.inl ⟨u, v ++ r.out, [], x, [], [], [], [], ?_, by simpa using hdec, h5,
+          Members.nil, htail, by simp, by simp, hj0, hjc⟩, Link.of_eq j ?_⟩
         · simpa using hR'
         · rw [hrem, IsPre.drop_eq h5]
     · intro _ ho
@@ -559,23 +664,84 @@ theorem G_step_full (hD : DecContract C Dec) {T : Bool} {cs : σ} {rem : Bytes} 
       rcases hne with h | h
       · exact h
       · exact absurd rfl h
+    have hKn : K ≠ Kind.valid := by rw [hK]; decide
     have htr := hD.truncated w'' x room hR hu hw'' (by simpa using hdec) hroom
     rw [← hr] at htr
     rcases htr with he | ⟨h1, h2, h3, h4, h5, h6⟩
-    · left; exact ⟨he, hT⟩
+    · left; exact ⟨he, hKn⟩
     · by_cases herr : r.res = Res.error
-      · left; exact ⟨herr, hT⟩
+      · left; exact ⟨herr, hKn⟩
       · right
-        refine ⟨herr, h3, h4, ⟨x.drop (v ++ r.out).length, Or.inr (Or.inl ⟨u, v ++ r.out, [], w'', x, hT, h6, hdec, h5, hw'',
-          Or.inl hu, rfl, rfl⟩), ?_⟩, (by intro h; rw [hT] at h; cases h), (fun _ => h2)⟩
+        refine ⟨herr, h3, h4, ⟨x.drop (v ++ r.out).length, j, Or.inr (Or.inl ⟨u, v ++ r.out, [], w'', x, hK, h6, hdec, h5, hw'',
+          Or.inl hu, rfl, rfl, hj⟩), Link.of_eq j ?_⟩, (by intro h; exact absurd h hKn), (fun _ => h2)⟩
         rw [hrem, IsPre.drop_eq h5]
   · -- between two members: clean end of the stream
     have hidle := hD.idle_eof room hR hroom
     rw [← hr] at hidle
     obtain ⟨h1, h2, h3, h4⟩ := hidle
     right
-    refine ⟨h1, h3, by rw [h2]; simp, ⟨[], Or.inr (Or.inr ⟨hT, h4, rfl, rfl⟩), by simp [hrem, h2]⟩, fun _ _ => hrem,
-      (by intro h; rw [hT] at h; cases h)⟩
+    refine ⟨h1, h3, by rw [h2]; simp, ⟨[], j, Or.inr (Or.inr (Or.inl ⟨hK, h4, rfl, rfl, hj⟩)), Link.of_eq j (by simp [hrem, h2])⟩,
+      fun _ _ => hrem, (by intro h; exact absurd hK h)⟩
+  · -- the input has gone wrong: an error, or more junk — never empty-handed
+    have hKn : K ≠ Kind.valid := by rw [hK]; decide
+    rcases E.step_full hB room hroom r hr with he | ⟨hc, hout, hol, j', hB', hjj⟩
+    · exact Or.inl ⟨he, hKn⟩
+    · by_cases herr : r.res = Res.error
+      · exact Or.inl ⟨herr, hKn⟩
+      · right
+        refine ⟨herr, hc, hol, ⟨[], j', Or.inr (Or.inr (Or.inr ⟨hK, rfl, hB'⟩)), ?_⟩, (by intro h; exact absurd h hKn), fun _ => hout⟩
+        rw [hrem]; exact Link.junk hjj
+
+/-- a per-member decoder as a stream-level decoder; `P` says which kinds of input the statement covers -/
+def streamOfDoom (hD : DecContract C Dec) (E : Doom hD) (P : Kind → Prop) (hen : ∀ K, P K → K = Kind.corrupt → Enter E)
+    (hPv : P Kind.valid) (hPt : P Kind.truncated) : StreamDecContract C Dec where
+  G K cs rest rem j := P K ∧ G hD E K cs rest rem j
+  pend := hD.pend
+  start_valid := by
+    intro ms xs hms
+    refine ⟨hPv, ?_⟩
+    have := G_boundary hD E (K := Kind.valid) (fun h => by cases h) hD.init hms (t := []) (xT := []) (j := 0) ⟨rfl, rfl⟩
+      (fun _ => rfl) (fun h => by cases h)
+    simpa using this
+  start_truncated := by
+    intro ms xs t t' xT hms ht ht' hd
+    exact ⟨hPt, G_boundary hD E (K := Kind.truncated) (fun h => by cases h) hD.init hms ⟨ht, t', ht', hd⟩
+      (fun _ => rfl) (fun h => by cases h)⟩
+  no_junk := by
+    intro K s rest rem j hG hK
+    rcases hG.2 with ⟨_, _, _, _, _, _, _, _, _, _, _, _, _, _, _, hj0, _⟩ | ⟨_, _, _, _, _, _, _, _, _, _, _, _, _, hj⟩ |
+        ⟨_, _, _, _, hj⟩ | ⟨hc, _, _⟩
+    · exact hj0 hK
+    · exact hj
+    · exact hj
+    · exact absurd hc hK
+  step_none := by
+    intro K s rest rem j hG n room hn hnr hroom r hr
+    rcases G_step_none hD E (hen K hG.1) hG.2 n room hn hnr hroom r hr with h | ⟨h1, h2, h3, ⟨rem', j', hG', hL⟩, h5, h6⟩
+    · exact Or.inl h
+    · exact Or.inr ⟨h1, h2, h3, ⟨rem', j', ⟨hG.1, hG'⟩, hL⟩, h5, h6⟩
+  step_full := by
+    intro K s rem j hG room hroom r hr
+    rcases G_step_full hD E hG.2 room hroom r hr with h | ⟨h1, h2, h3, ⟨rem', j', hG', hL⟩, h5, h6⟩
+    · exact Or.inl h
+    · exact Or.inr ⟨h1, h2, h3, ⟨rem', j', ⟨hG.1, hG'⟩, hL⟩, h5, h6⟩
+
+/-- every decoder meeting the per-member contract meets the stream-level contract -/
+def streamOfDec (hD : DecContract C Dec) : StreamDecContract C Dec :=
+  streamOfDoom hD (Doom.none hD) (fun K => K ≠ Kind.corrupt) (fun _ h1 h2 => absurd h2 h1) (by decide) (by decide)
+
+/-- … and with the contract for input that has gone wrong, also its corrupted-input part -/
+def streamOfDecErr (hD : DecContract C Dec) (hE : DecErrContract hD) : StreamDecErrContract C Dec where
+  toStreamDecContract := streamOfDoom hD hE.toDoom (fun _ => True) (fun _ _ _ s c hR hd => hE.enter hR hd) trivial trivial
+  budget := hE.budget
+  start_corrupt := by
+    intro ms xs c hms hdead
+    refine ⟨trivial, ?_⟩
+    have := G_boundary hD hE.toDoom (K := Kind.corrupt) (fun _ s c hR hd => hE.enter hR hd) hD.init hms (t := c) (xT := [])
+      (j := hE.budget c.length) ⟨hdead, rfl⟩ (fun h => absurd rfl h) (fun _ => rfl)
+    simpa using this
+
+/-! ### `precache`, `get_buffered_data`, a reader — for every stream-level decoder -/
 
 theorem peek_nil {i : Inner} (h : i.rest = []) :
     i.peek.1 = [] ∧ i.peek.2.1 = true ∧ i.peek.2.2.rest = [] := by
@@ -591,50 +757,54 @@ theorem peek_cons {i : Inner} (h : i.rest ≠ []) :
     exact ⟨min (k + 1) i.rest.length, by omega, by omega, by simp [Inner.peek, hl, hs], by simp [Inner.peek, hl], by simp [Inner.peek, hl]⟩
 
 /-- what `precache`'s loop achieves -/
-def PrecachePost (hD : DecContract C Dec) (T : Bool) (bufsz : Nat) (buf0 rem0 : Bytes)
+def PrecachePost (S : StreamDecContract C Dec) (K : Kind) (bufsz : Nat) (buf0 rem0 : Bytes) (j0 : Nat)
     (r : Except Int (σ × Bytes × Inner)) : Prop :=
-  (r = .error errCompressor ∧ T = true) ∨
-  ∃ cs' o inner' rem', r = .ok (cs', buf0 ++ o, inner') ∧ (buf0 ++ o).length ≤ bufsz ∧ G hD T cs' inner'.rest rem' ∧
-    rem0 = o ++ rem' ∧ (T = false → o = [] → rem0 = []) ∧ (T = true → o ≠ [])
+  (r = .error errCompressor ∧ K ≠ Kind.valid) ∨
+  ∃ cs' o inner' rem' j', r = .ok (cs', buf0 ++ o, inner') ∧ (buf0 ++ o).length ≤ bufsz ∧ S.G K cs' inner'.rest rem' j' ∧
+    Link rem0 j0 o rem' j' ∧ (K = Kind.valid → o = [] → rem0 = []) ∧ (K ≠ Kind.valid → o ≠ [])
 
-theorem precacheLoop_spec (hD : DecContract C Dec) {bufsz : Nat} {T : Bool} {cs : σ} {buf0 rem0 : Bytes}
-    {inner : Inner} (hG : G hD T cs inner.rest rem0) (hlen : buf0.length < bufsz) :
-    ∃ f r, precacheLoop C bufsz f cs buf0 inner = some r ∧ PrecachePost hD T bufsz buf0 rem0 r := by
+theorem precacheLoop_spec (S : StreamDecContract C Dec) {bufsz : Nat} {K : Kind} {cs : σ} {buf0 rem0 : Bytes} {j0 : Nat}
+    {inner : Inner} (hG : S.G K cs inner.rest rem0 j0) (hlen : buf0.length < bufsz) :
+    ∃ f r, precacheLoop C bufsz f cs buf0 inner = some r ∧ PrecachePost S K bufsz buf0 rem0 j0 r := by
   refine iter_total (precacheBody C bufsz)
-    (fun a => ∃ o rem1, a.2.1 = buf0 ++ o ∧ a.2.1.length < bufsz ∧ G hD T a.1 a.2.2.rest rem1 ∧ rem0 = o ++ rem1)
-    (PrecachePost hD T bufsz buf0 rem0)
-    (fun a => (a.2.2.rest.length, hD.pend a.1)) ?_ (cs, buf0, inner) ⟨[], rem0, by simp, hlen, hG, by simp⟩
-  rintro ⟨cs1, buf1, inner1⟩ ⟨o, rem1, hbuf, hl1, hG1, hrem⟩
+    (fun a => ∃ o rem1 j1, a.2.1 = buf0 ++ o ∧ a.2.1.length < bufsz ∧ S.G K a.1 a.2.2.rest rem1 j1 ∧ Link rem0 j0 o rem1 j1)
+    (PrecachePost S K bufsz buf0 rem0 j0)
+    (fun a => (a.2.2.rest.length, S.pend a.1)) ?_ (cs, buf0, inner) ⟨[], rem0, j0, by simp, hlen, hG, Link.refl _ _⟩
+  rintro ⟨cs1, buf1, inner1⟩ ⟨o, rem1, j1, hbuf, hl1, hG1, hrem⟩
   simp only at hbuf hl1 hG1 hrem
   have hroom : 0 < bufsz - buf1.length := by omega
   by_cases hrest : inner1.rest = []
   · -- end of the wrapped stream: one call with FLUSH_FULL, then leave
     obtain ⟨hp1, hp2, hp3⟩ := peek_nil hrest
     rw [hrest] at hG1
-    have hstep := G_step_full hD hG1 (bufsz - buf1.length) hroom _ rfl
+    have hstep := S.step_full hG1 (bufsz - buf1.length) hroom _ rfl
     simp only [precacheBody, hp1, hp2, if_true]
-    rcases hstep with ⟨he, hT⟩ | ⟨hne, hc, hol, ⟨rem', hG', hr'⟩, hF, hTt⟩
+    rcases hstep with ⟨he, hK⟩ | ⟨hne, hc, hol, ⟨rem', j', hG', hr'⟩, hF, hTt⟩
     · rw [if_pos he]
-      exact ⟨fun r hr => by cases hr; exact Or.inl ⟨rfl, hT⟩, fun a' h => by cases h⟩
+      exact ⟨fun r hr => by cases hr; exact Or.inl ⟨rfl, hK⟩, fun a' h => by cases h⟩
     · rw [if_neg hne]
       rw [ite_self]
       refine ⟨fun r hr => ?_, fun a' h => by cases h⟩
       cases hr
       right
       refine ⟨(C.step cs1 [] (bufsz - buf1.length) Flush.full).st, o ++ (C.step cs1 [] (bufsz - buf1.length) Flush.full).out,
-        inner1.peek.2.2.advance (C.step cs1 [] (bufsz - buf1.length) Flush.full).consumed, rem', by rw [← List.append_assoc, ← hbuf], ?_, ?_, ?_, ?_, ?_⟩
+        inner1.peek.2.2.advance (C.step cs1 [] (bufsz - buf1.length) Flush.full).consumed, rem', j', by rw [← List.append_assoc, ← hbuf], ?_, ?_, ?_, ?_, ?_⟩
       · rw [← List.append_assoc, ← hbuf, List.length_append]; omega
       · simpa [Inner.advance, hp3] using hG'
-      · rw [hrem, hr', List.append_assoc]
-      · intro hT ho
+      · exact hrem.trans hr'
+      · intro hK ho
         obtain ⟨ho1, ho2⟩ := List.append_eq_nil_iff.1 ho
-        rw [hrem, ho1, hF hT ho2]; rfl
-      · intro hT ho
-        exact hTt hT (List.append_eq_nil_iff.1 ho).2
+        rw [ho1] at hrem
+        rw [hrem.nil_out, hF hK ho2]
+      · intro hK ho
+        exact hTt hK (List.append_eq_nil_iff.1 ho).2
   · -- data available: one call with FLUSH_NONE
     obtain ⟨n, hn0, hn1, hp1, hp2, hp3⟩ := peek_cons hrest
-    obtain ⟨hne, hol, hcn, ⟨rem', hG', hr'⟩, hbf, hprog⟩ := G_step_none hD hG1 n (bufsz - buf1.length) hn0 hn1 hroom _ rfl
     simp only [precacheBody, hp1, hp2, Bool.false_eq_true, if_false]
+    rcases S.step_none hG1 n (bufsz - buf1.length) hn0 hn1 hroom _ rfl with ⟨he, hK⟩ |
+        ⟨hne, hol, hcn, ⟨rem', j', hG', hr'⟩, hbf, hprog⟩
+    · rw [if_pos he]
+      exact ⟨fun r hr => by cases hr; exact Or.inl ⟨rfl, by rw [hK]; decide⟩, fun a' h => by cases h⟩
     rw [if_neg hne]
     by_cases hexit : ((C.step cs1 (inner1.rest.take n) (bufsz - buf1.length) Flush.none).res = Res.bufferFull ||
         decide (bufsz ≤ (buf1 ++ (C.step cs1 (inner1.rest.take n) (bufsz - buf1.length) Flush.none).out).length)) = true
@@ -649,37 +819,38 @@ theorem precacheLoop_spec (hD : DecContract C Dec) {bufsz : Nat} {T : Bool} {cs 
         · intro h0; rw [h0] at h; simp at h; omega
       refine ⟨(C.step cs1 (inner1.rest.take n) (bufsz - buf1.length) Flush.none).st,
         o ++ (C.step cs1 (inner1.rest.take n) (bufsz - buf1.length) Flush.none).out,
-        inner1.peek.2.2.advance (C.step cs1 (inner1.rest.take n) (bufsz - buf1.length) Flush.none).consumed, rem', by rw [← List.append_assoc, ← hbuf], ?_, ?_, ?_, ?_, ?_⟩
+        inner1.peek.2.2.advance (C.step cs1 (inner1.rest.take n) (bufsz - buf1.length) Flush.none).consumed, rem', j', by rw [← List.append_assoc, ← hbuf], ?_, ?_, ?_, ?_, ?_⟩
       · rw [← List.append_assoc, ← hbuf, List.length_append]; omega
       · simpa [Inner.advance, hp3] using hG'
-      · rw [hrem, hr', List.append_assoc]
+      · exact hrem.trans hr'
       · intro _ ho; exact absurd (List.append_eq_nil_iff.1 ho).2 hout
       · intro _ ho; exact hout (List.append_eq_nil_iff.1 ho).2
     · rw [if_neg hexit]
       simp only [Bool.or_eq_true, decide_eq_true_eq, not_or, Nat.not_le] at hexit
       refine ⟨fun r hr => (by cases hr), fun a' h => ?_⟩
       cases h
-      refine ⟨⟨o ++ (C.step cs1 (inner1.rest.take n) (bufsz - buf1.length) Flush.none).out, rem', by rw [← List.append_assoc, ← hbuf], hexit.2, ?_, ?_⟩, ?_⟩
+      refine ⟨⟨o ++ (C.step cs1 (inner1.rest.take n) (bufsz - buf1.length) Flush.none).out, rem', j', by rw [← List.append_assoc, ← hbuf], hexit.2, ?_, ?_⟩, ?_⟩
       · simpa [Inner.advance, hp3] using hG'
-      · rw [hrem, hr', List.append_assoc]
+      · exact hrem.trans hr'
       · simp only [LexLt, Inner.advance, hp3, List.length_drop]
-        rcases hprog with hp | hp
+        rcases hprog with hp | hp | hp
         · left; omega
         · by_cases hc : (C.step cs1 (inner1.rest.take n) (bufsz - buf1.length) Flush.none).consumed = 0
           · right; exact ⟨by omega, hp⟩
           · left; omega
+        · exact absurd hp hexit.1
 
 /-- invariant of the input stream between two reader operations; `rem` = content not yet in the buffer -/
-def IInv (hD : DecContract C Dec) (T : Bool) (bufsz : Nat) (st : IState σ) (rem : Bytes) : Prop :=
-  st.off ≤ st.buf.length ∧ st.buf.length ≤ bufsz ∧ G hD T st.cs st.inner.rest rem
+def IInv (S : StreamDecContract C Dec) (K : Kind) (bufsz : Nat) (st : IState σ) (rem : Bytes) (j : Nat) : Prop :=
+  st.off ≤ st.buf.length ∧ st.buf.length ≤ bufsz ∧ S.G K st.cs st.inner.rest rem j
 
-theorem iGet_spec (hD : DecContract C Dec) {bufsz : Nat} (hb : 0 < bufsz) {T : Bool} {st : IState σ} {rem : Bytes}
-    (hI : IInv hD T bufsz st rem) (want : Nat) :
+theorem iGet_spec (S : StreamDecContract C Dec) {bufsz : Nat} (hb : 0 < bufsz) {K : Kind} {st : IState σ} {rem : Bytes} {j : Nat}
+    (hI : IInv S K bufsz st rem j) (want : Nat) :
     ∃ f0 r, (∀ f, f0 ≤ f → iGet C bufsz f st want = some r) ∧
-      ((r = .error errCompressor ∧ T = true) ∨
-       ∃ st' rem', r = .ok (st', st'.buf.drop st'.off, decide ((st'.buf.drop st'.off).length = 0)) ∧
-         IInv hD T bufsz st' rem' ∧ st.buf.drop st.off ++ rem = st'.buf.drop st'.off ++ rem' ∧
-         (0 < want → st'.buf.drop st'.off = [] → T = false ∧ rem' = [])) := by
+      ((r = .error errCompressor ∧ K ≠ Kind.valid) ∨
+       ∃ st' rem' j' o, r = .ok (st', st'.buf.drop st'.off, decide ((st'.buf.drop st'.off).length = 0)) ∧
+         IInv S K bufsz st' rem' j' ∧ st'.buf.drop st'.off = st.buf.drop st.off ++ o ∧ Link rem j o rem' j' ∧
+         (0 < want → st'.buf.drop st'.off = [] → K = Kind.valid ∧ rem' = [])) := by
   obtain ⟨hoff, hlen, hG⟩ := hI
   by_cases hpre : (st.buf.length = 0 || decide (st.buf.length - st.off < (if bufsz < want then bufsz else want))) = true
   · -- precache
@@ -689,29 +860,27 @@ theorem iGet_spec (hD : DecContract C Dec) {bufsz : Nat} (hb : 0 < bufsz) {T : B
       rcases hpre with h | h
       · omega
       · split at h <;> omega
-    obtain ⟨f0, r, hrun, hpost⟩ := precacheLoop_spec hD hG hl0
-    rcases hpost with ⟨rfl, hT⟩ | ⟨cs', o, inner', rem', rfl, hl', hG', hrem, hF, hTt⟩
-    · refine ⟨f0, .error errCompressor, fun f hf => ?_, Or.inl ⟨rfl, hT⟩⟩
+    obtain ⟨f0, r, hrun, hpost⟩ := precacheLoop_spec S hG hl0
+    rcases hpost with ⟨rfl, hK⟩ | ⟨cs', o, inner', rem', j', rfl, hl', hG', hrem, hF, hTt⟩
+    · refine ⟨f0, .error errCompressor, fun f hf => ?_, Or.inl ⟨rfl, hK⟩⟩
       have := iter_mono _ _ _ _ hrun f hf
       simp only [iGet, hpre, if_true, precache, precacheLoop] at this ⊢
       rw [this]
-    · refine ⟨f0, _, fun f hf => ?_, Or.inr ⟨{ cs := cs', buf := st.buf.drop st.off ++ o, off := 0, inner := inner' }, rem', rfl,
-        ⟨Nat.zero_le _, hl', hG'⟩, ?_, ?_⟩⟩
+    · refine ⟨f0, _, fun f hf => ?_, Or.inr ⟨{ cs := cs', buf := st.buf.drop st.off ++ o, off := 0, inner := inner' }, rem', j', o, rfl,
+        ⟨Nat.zero_le _, hl', hG'⟩, by simp, hrem, ?_⟩⟩
       · have := iter_mono _ _ _ _ hrun f hf
         simp only [iGet, hpre, if_true, precache, precacheLoop] at this ⊢
         rw [this]
-      · simp [hrem, List.append_assoc]
       · intro _ hv
         simp only [List.drop_zero] at hv
         obtain ⟨h1, h2⟩ := List.append_eq_nil_iff.1 hv
-        cases hT : T with
-        | false =>
-          have := hF hT h2
-          rw [this] at hrem
-          exact ⟨rfl, (List.append_eq_nil_iff.1 hrem.symm).2⟩
-        | true => exact absurd h2 (hTt hT)
+        by_cases hK : K = Kind.valid
+        · have h0 := hF hK h2
+          rw [h2] at hrem
+          exact ⟨hK, by rw [← hrem.nil_out, h0]⟩
+        · exact absurd h2 (hTt hK)
   · -- enough buffered
-    refine ⟨0, _, fun f _ => ?_, Or.inr ⟨st, rem, rfl, ⟨hoff, hlen, hG⟩, rfl, ?_⟩⟩
+    refine ⟨0, _, fun f _ => ?_, Or.inr ⟨st, rem, j, [], rfl, ⟨hoff, hlen, hG⟩, by simp, Link.refl _ _, ?_⟩⟩
     · simp only [iGet, hpre]; rfl
     · intro hw hv
       exfalso
@@ -721,34 +890,39 @@ theorem iGet_spec (hD : DecContract C Dec) {bufsz : Nat} (hb : 0 < bufsz) {T : B
       obtain ⟨h1, h2⟩ := hpre
       split at h2 <;> omega
 
-theorem iRead_spec (hD : DecContract C Dec) {bufsz : Nat} (hb : 0 < bufsz) {T : Bool} (X : Bytes) :
-    ∀ (ops : List (Nat × Nat)) (st : IState σ) (rem acc : Bytes), IInv hD T bufsz st rem →
-      X = acc ++ (st.buf.drop st.off ++ rem) → (∀ op ∈ ops, 0 < op.1) →
+theorem iRead_spec (S : StreamDecContract C Dec) {bufsz : Nat} (hb : 0 < bufsz) {K : Kind} (X : Bytes) (J : Nat)
+    (hJ : K ≠ Kind.corrupt → J = 0) :
+    ∀ (ops : List (Nat × Nat)) (st : IState σ) (rem : Bytes) (j : Nat) (acc : Bytes), IInv S K bufsz st rem j →
+      Link X J (acc ++ st.buf.drop st.off) rem j → (∀ op ∈ ops, 0 < op.1) →
       ∃ f0 r, (∀ f, f0 ≤ f → iRead C bufsz f st ops acc = some r) ∧
-        ((r = .error errCompressor ∧ T = true) ∨
-         ∃ st' acc' eof, r = .ok (st', acc', eof) ∧ IsPre acc' X ∧ (eof = true → T = false ∧ acc' = X) ∧
+        ((r = .error errCompressor ∧ K ≠ Kind.valid) ∨
+         ∃ st' acc' eof, r = .ok (st', acc', eof) ∧ Deliv X J acc' ∧ (eof = true → K = Kind.valid ∧ acc' = X) ∧
            ((∀ op ∈ ops, 0 < op.2) → eof = true ∨ acc.length + ops.length ≤ acc'.length)) := by
   intro ops
   induction ops with
   | nil =>
-    intro st rem acc _ hX _
-    exact ⟨0, _, fun f _ => rfl, Or.inr ⟨st, acc, false, rfl, ⟨_, hX⟩, (by intro h; cases h), fun _ => Or.inr (by simp)⟩⟩
+    intro st rem j acc _ hX _
+    exact ⟨0, _, fun f _ => rfl, Or.inr ⟨st, acc, false, rfl, hX.deliv ⟨_, rfl⟩, (by intro h; cases h), fun _ => Or.inr (by simp)⟩⟩
   | cons op ops ih =>
-    intro st rem acc hI hX hw
+    intro st rem j acc hI hX hw
     obtain ⟨want, take⟩ := op
-    obtain ⟨f1, r1, hrun1, hpost1⟩ := iGet_spec hD hb hI want
-    rcases hpost1 with ⟨rfl, hT⟩ | ⟨st1, rem1, rfl, hI1, hsame, hempty⟩
-    · refine ⟨f1, .error errCompressor, fun f hf => ?_, Or.inl ⟨rfl, hT⟩⟩
+    obtain ⟨f1, r1, hrun1, hpost1⟩ := iGet_spec S hb hI want
+    rcases hpost1 with ⟨rfl, hK⟩ | ⟨st1, rem1, j1, o, rfl, hI1, hvis, hL, hempty⟩
+    · refine ⟨f1, .error errCompressor, fun f hf => ?_, Or.inl ⟨rfl, hK⟩⟩
       simp only [iRead, hrun1 f hf]
-    · by_cases hv : (st1.buf.drop st1.off).length = 0
+    · have hX1 : Link X J (acc ++ st1.buf.drop st1.off) rem1 j1 := by
+        rw [hvis, ← List.append_assoc]; exact hX.trans hL
+      by_cases hv : (st1.buf.drop st1.off).length = 0
       · -- end of stream reported
         have hvn : st1.buf.drop st1.off = [] := List.eq_nil_of_length_eq_zero hv
-        obtain ⟨hT, hr⟩ := hempty (hw (want, take) (List.mem_cons_self ..)) hvn
-        refine ⟨f1, .ok (st1, acc, true), fun f hf => ?_, Or.inr ⟨st1, acc, true, rfl, ⟨_, hX⟩, ?_, fun _ => Or.inl rfl⟩⟩
+        obtain ⟨hKv, hr⟩ := hempty (hw (want, take) (List.mem_cons_self ..)) hvn
+        refine ⟨f1, .ok (st1, acc, true), fun f hf => ?_, Or.inr ⟨st1, acc, true, rfl, hX1.deliv ⟨_, rfl⟩, ?_, fun _ => Or.inl rfl⟩⟩
         · simp only [iRead, hrun1 f hf, hv, decide_true, if_true]
         · intro _
-          refine ⟨hT, ?_⟩
-          rw [hX, hsame, hvn, hr]; simp
+          refine ⟨hKv, ?_⟩
+          rw [hvn, hr, hJ (by rw [hKv]; decide)] at hX1
+          have := hX1.eq_of_zero.1
+          simpa using this.symm
       · -- data: take some, go on
         let n := min take (st1.buf.drop st1.off).length
         have hnle : n ≤ st1.buf.length - st1.off := by
@@ -756,14 +930,12 @@ theorem iRead_spec (hD : DecContract C Dec) {bufsz : Nat} (hb : 0 < bufsz) {T : 
         obtain ⟨hoff1, hlen1, hG1⟩ := hI1
         have hadv : iAdvance st1 n = some { st1 with off := st1.off + n } := by
           simp only [iAdvance]; rw [if_pos]; constructor <;> omega
-        have hI2 : IInv hD T bufsz { st1 with off := st1.off + n } rem1 := ⟨by simp only; omega, hlen1, hG1⟩
+        have hI2 : IInv S K bufsz { st1 with off := st1.off + n } rem1 j1 := ⟨by simp only; omega, hlen1, hG1⟩
         have hsplit : st1.buf.drop st1.off = (st1.buf.drop st1.off).take n ++ st1.buf.drop (st1.off + n) := by
           rw [← List.drop_drop, List.take_append_drop]
-        have hX2 : X = (acc ++ (st1.buf.drop st1.off).take n) ++ (st1.buf.drop (st1.off + n) ++ rem1) := by
-          rw [hX, hsame]
-          conv => lhs; rw [hsplit]
-          simp [List.append_assoc]
-        obtain ⟨f2, r2, hrun2, hpost2⟩ := ih { st1 with off := st1.off + n } rem1 (acc ++ (st1.buf.drop st1.off).take n) hI2 hX2
+        have hX2 : Link X J ((acc ++ (st1.buf.drop st1.off).take n) ++ st1.buf.drop (st1.off + n)) rem1 j1 := by
+          rw [List.append_assoc, ← hsplit]; exact hX1
+        obtain ⟨f2, r2, hrun2, hpost2⟩ := ih { st1 with off := st1.off + n } rem1 j1 (acc ++ (st1.buf.drop st1.off).take n) hI2 hX2
           (fun op hop => hw op (List.mem_cons_of_mem _ hop))
         refine ⟨max f1 f2, r2, fun f hf => ?_, ?_⟩
         · simp only [iRead, hrun1 f (by omega), hv, decide_false, Bool.false_eq_true, if_false]
